@@ -8,3 +8,5 @@ else
 fi
 # part "trim-race": the plain harness built with the race detector (free-running pass)
 build_bin vqr vq - -race
+# part "map-order": the harness built against a Go runtime whose map-iteration start is a harness decision
+. $V/checks.d/_vqm.inc
